@@ -788,7 +788,7 @@ func (c *checkCtx) runNative(prog *Program, specs []*HarnessSpec, cases []native
 		os.WriteFile(cf, cd, 0o644)
 		goBin := "go"
 		env := append(os.Environ(), "GOFLAGS=-mod=mod", "GOPROXY=off", "GOSUMDB=off", "GOTOOLCHAIN=local", "VERIF_CASES="+cf)
-		args := []string{"test", "-v", "-tags", "verif", "-vet=off", "-count=1", "-timeout", "20m", "-overlay", ovPath, "-run", "^TestVerifReplay$", "./" + rel}
+		args := []string{"test", "-v", "-tags", "verif", "-vet=off", "-count=1", "-timeout", "8m", "-overlay", ovPath, "-run", "^TestVerifReplay$", "./" + rel}
 		if mode == "synctest" {
 			goBin = "go1.26.8"
 		}
